@@ -16,6 +16,17 @@ def payload_for(thread, k):
     return "%s-%d:%s" % (thread, k, TEXT_BODY)
 
 
+def big_payload(thread, k, n):
+    """An n-character ASCII payload that hardly compresses (hex of a SHA-256 stream), tagged with its sender."""
+    import hashlib
+    out = []
+    c = 0
+    while sum(len(x) for x in out) < n:
+        out.append(hashlib.sha256(("%s:%d:%d" % (thread, k, c)).encode()).hexdigest())
+        c += 1
+    return ("%s-%d:" % (thread, k) + "".join(out))[:n]
+
+
 def do_call(ws, call):
     kind = call[0]
     if kind == "send_text":
